@@ -117,7 +117,9 @@ def lens_of(core, argt, args):
             kt = rtype(p[2], [at[0], (at[1][2] if at[1] != "N" else "N")])
             return ("T", [kt[1][0], ("A", n, kt[1][1])])
         if k == "switch": return rtype(p[1][0], at[1][1])
-        if k == "mask": return ("M", rtype(p[1], at[1:]))
+        if k == "mask":
+            it = rtype(p[1], at[1:])
+            return it if (isinstance(it, tuple) and it[0] == "M") else ("M", it)
         if k == "dimap":
             gat = [etype(e, list(at)) for e in p[1]]
             return etype(p[3], [("T", list(at)), ("T", gat), rtype(p[2], gat)])
@@ -142,7 +144,9 @@ def make_case(seed, depth, flavour="basic"):
         break
     nb = max([len(p[1]) for p in walk(core) if p[0] == "switch"] + [2])
     args = [G.value(t, nb) for t in argt]
-    stages = [rng.choice(["ar", "ar", "py"]) for _ in argt]
+    # flags are array flags: a Python-bool mask flag takes the concrete shortcut of ChoiceMap.mask (known finding K17);
+    # indices are Python ints or arrays
+    stages = [("ar" if t == "B" else rng.choice(["ar", "ar", "py"])) for t in argt]
     univ = addresses_n(core, list(lens))
     # de-duplicate
     seen, u2 = set(), []
@@ -152,9 +156,19 @@ def make_case(seed, depth, flavour="basic"):
             seen.add(key); u2.append(p)
     univ = u2[:40]
     ids = sorted({x for p in univ for (k, x) in p if k == "s"}) or [0]
-    junk = [[("s", 9)], [("s", ids[0]), ("s", 9)]]
+    # junk addresses sit at *static* levels only (a static key where the program expects an index level is a
+    # vectorised constraint in GenJAX and needs array-shaped leaves): replace the last static component by a foreign one
+    junk = []
+    for p in univ:
+        sidx = [i for i, (k, x) in enumerate(p) if k == "s"]
+        if sidx:
+            q = list(p[:sidx[-1]]) + [("s", 9)]
+            if q not in junk:
+                junk.append(q)
+        if len(junk) >= 2:
+            break
     case = {"seed": seed, "prog": prog, "core": core, "argt": argt, "rett": rett, "args": args, "stages": stages,
-            "univ": univ, "junk": junk, "ids": ids, "keyseed": rng.randint(0, 10 ** 6),
+            "univ": univ, "junk": junk, "ids": ids, "zero_len": any(l == 0 for l in lens), "keyseed": rng.randint(0, 10 ** 6),
             "sels": [gen_sel(rng, ids) for _ in range(3)], "rngseed": rng.randint(0, 10 ** 9), "flavour": flavour}
     return case
 
@@ -242,6 +256,8 @@ def run_case(case):
                 r = ("ok", (gfi.from_jax(r[1][0], "S"), gfi.from_jax(r[1][1], case["rett"])))
             except AssertionError as e:
                 r = ("inexact", str(e))
+        if case["zero_len"] and r[0] == "err" and r[1] in ("EMissingAddress", "EType"):
+            r = ("known", "zero-length-assess", r[2])
         steps.append({"kind": "assess_own", "ti": 0, "res": r})
     # 3. project with selections
     for s in case["sels"]:
@@ -260,7 +276,7 @@ def run_case(case):
                     ents.append((p, ("M", rng.random() < 0.5, nv, rng.choice(["ar", "py"]))))
                 else:
                     ents.append((p, nv))
-        if rng.random() < 0.2 and [] not in case["univ"]:
+        if rng.random() < 0.2 and case["junk"]:
             ents.append((case["junk"][0], 1))
         kseed = case["keyseed"] + 17 * (gi + 1)
         style = rng.choice([0, 0, 1])
@@ -283,6 +299,8 @@ def run_case(case):
                     r2 = ("ok", (gfi.from_jax(r2[1][0], "S"), gfi.from_jax(r2[1][1], case["rett"])))
                 except AssertionError as e:
                     r2 = ("inexact", str(e))
+            if case["zero_len"] and r2[0] == "err" and r2[1] in ("EMissingAddress", "EType"):
+                r2 = ("known", "zero-length-assess", r2[2])
             steps.append({"kind": "assess_own", "ti": ti, "res": r2})
     return {"steps": steps}
 
